@@ -7,7 +7,7 @@ use crate::prng::Rng;
 use crate::util::{hex, unhex, Toks};
 use crate::{OracleOut, Stream, Tier};
 use ciborium::value::{Integer, Value};
-use echo_wasm_abi::canonical::{decode_value, encode_value, CanonError};
+use echo_wasm_abi::canonical::{decode_value, encode_value, CanonError, MAX_DECODE_NESTING_DEPTH};
 
 pub fn streams() -> Vec<Stream> {
     vec![
@@ -214,6 +214,18 @@ fn norm(v: &Value, tags: &mut Vec<String>) -> Result<Value, &'static str> {
     })
 }
 
+/// Number of nested containers (0 for a scalar). The decoder reads back at most
+/// `MAX_DECODE_NESTING_DEPTH` of them, so a deeper value is outside the codec's domain: the
+/// encoder has to refuse it (or the round trip has to work anyway).
+fn nesting(v: &Value) -> usize {
+    match v {
+        Value::Array(xs) => 1 + xs.iter().map(nesting).max().unwrap_or(0),
+        Value::Map(es) => 1 + es.iter().map(|(k, x)| nesting(k).max(nesting(x))).max().unwrap_or(0),
+        Value::Tag(_, x) => nesting(x),
+        _ => 0,
+    }
+}
+
 fn reverse_maps(v: &Value) -> Value {
     match v {
         Value::Array(xs) => Value::Array(xs.iter().map(reverse_maps).collect()),
@@ -241,6 +253,11 @@ fn oracle_abi_enc(t: &mut Toks, _tier: Tier) -> Result<OracleOut, String> {
     let v = parse_val(t, 0)?;
     let mut o = OracleOut::default();
     let expected = norm(&v, &mut o.tags);
+    let depth = nesting(&v);
+    let too_deep = depth > MAX_DECODE_NESTING_DEPTH;
+    if depth + 2 >= MAX_DECODE_NESTING_DEPTH {
+        o.tags.push(format!("nesting:{}", if too_deep { "over-limit" } else { "at-limit" }));
+    }
     o.tags.sort();
     o.tags.dedup();
     let enc = encode_value(&v);
@@ -254,6 +271,13 @@ fn oracle_abi_enc(t: &mut Toks, _tier: Tier) -> Result<OracleOut, String> {
     match (&enc, &expected) {
         (Err(e), Err(_)) => {
             o.tags.push(format!("enc-err:{}", err_class(e)));
+        }
+        // deeper than the decoder reads back: refusing is the only way to keep the round trip
+        (Err(e), Ok(_)) if too_deep => {
+            o.tags.push(format!("enc-err:{}", err_class(e)));
+            if !matches!(e, CanonError::NestingLimitExceeded) {
+                o.fails.push(("C12.abi.encode-error-class.nesting".into(), format!("a value nested {depth} deep (nothing else wrong) is refused with {}", err_class(e))));
+            }
         }
         (Err(e), Ok(_)) => o.fails.push((
             "C12.abi.encode-refuses-domain-value".into(),
@@ -276,6 +300,9 @@ fn oracle_abi_enc(t: &mut Toks, _tier: Tier) -> Result<OracleOut, String> {
                 other => {
                     let key = if has_float_class(&v, &oob) {
                         "C12.abi.roundtrip.float-out-of-int-range"
+                    } else if too_deep {
+                        // STRICT: the encoder produced bytes for a value the decoder does not read back
+                        "C12.abi.roundtrip.nesting-limit"
                     } else {
                         "C12.abi.roundtrip.other"
                     };
@@ -458,20 +485,61 @@ fn gen_abi_enc(rng: &mut Rng, tier: Tier) -> Vec<String> {
     for f in edge_floats() {
         out.push(format!("d {f:016x}"));
     }
-    // deep nesting
-    for d in [1usize, 5, 60, 200] {
+    // deep nesting, around MAX_DECODE_NESTING_DEPTH (128): arrays, maps nested in the value, maps
+    // nested in the KEY, alternating, and an empty container as the innermost item
+    for d in [1usize, 5, 60, 126, 127, 128, 129, 130, 200] {
+        let rep = |unit: &str, tail: &str| {
+            let mut s = String::new();
+            for _ in 0..d {
+                s.push_str(unit);
+            }
+            s.push_str(tail);
+            s
+        };
+        out.push(rep("a 1 ", "i 7"));
+        out.push(rep("m 1 i 1 ", "n"));
+        out.push(rep("a 1 ", "a 0"));
+        out.push(rep("a 1 ", "m 0"));
+        out.push(rep("m 1 i 1 ", "a 2 i 1 d 3ff8000000000000"));
+        // key nested d deep: m 1 (m 1 (… i 1 …) n) n
         let mut s = String::new();
         for _ in 0..d {
-            s.push_str("a 1 ");
+            s.push_str("m 1 ");
         }
-        s.push_str("i 7");
+        s.push_str("i 1");
+        for _ in 0..d {
+            s.push_str(" n");
+        }
         out.push(s);
         let mut s = String::new();
-        for _ in 0..d {
-            s.push_str("m 1 i 1 ");
+        for i in 0..d {
+            s.push_str(if i % 2 == 0 { "a 1 " } else { "m 1 s 6b " });
         }
-        s.push_str("n");
+        s.push_str("d 7ff8000000000001");
         out.push(s);
+        // a deep item next to shallow ones (the deepest path decides)
+        out.push(format!("a 3 i 1 {} s 61", rep("a 1 ", "n")));
+        out.push(format!("m 2 i 2 {} i 1 t", rep("a 1 ", "f")));
+    }
+    // order of the encoder's errors at the limit (container check first; keys before values)
+    {
+        let deep = |n: usize, tail: &str| {
+            let mut s = String::new();
+            for _ in 0..n {
+                s.push_str("a 1 ");
+            }
+            s.push_str(tail);
+            s
+        };
+        out.push(deep(128, "g 1 n")); // Tag (a scalar position at depth 128 is fine)
+        out.push(deep(128, "a 1 g 1 n")); // NestingLimitExceeded before the item's Tag
+        out.push(deep(128, "m 2 i 1 t i 1 f")); // NestingLimitExceeded before MapKeyDuplicate
+        out.push(deep(128, "i -9223372036854775809")); // Encode
+        out.push(format!("m 2 i 1 {} g 1 n n", deep(129, "n"))); // key Tag before the value's nesting
+        out.push(format!("m 2 i 1 {} i 1 n", deep(129, "n"))); // MapKeyDuplicate before the value's nesting
+        out.push(format!("m 2 {} n g 1 n n", deep(128, "n"))); // first key's nesting before second key's Tag
+        out.push(format!("a 2 {} g 1 n", deep(129, "n"))); // first item's nesting before the Tag
+        out.push(format!("a 2 g 1 n {}", deep(129, "n"))); // Tag first
     }
     // wide
     for n in [23usize, 24, 255, 256, 1000] {
@@ -843,6 +911,46 @@ fn gen_abi_dec(rng: &mut Rng, tier: Tier) -> Vec<String> {
         if let Ok(b) = unhex(f) {
             push(&b, "fixed", &mut out);
         }
+    }
+    // nesting around MAX_DECODE_NESTING_DEPTH (128): the decoder must accept exactly what the
+    // encoder produces; `read_len` errors come before the nesting check
+    for d in [126usize, 127, 128, 129, 130, 200] {
+        let rep = |unit: &[u8], tail: &[u8]| {
+            let mut b = Vec::new();
+            for _ in 0..d {
+                b.extend_from_slice(unit);
+            }
+            b.extend_from_slice(tail);
+            b
+        };
+        push(&rep(&[0x81], &[0xf6]), "nest", &mut out);
+        push(&rep(&[0xa1, 0x01], &[0xf6]), "nest", &mut out);
+        push(&rep(&[0x81], &[0x80]), "nest", &mut out);
+        push(&rep(&[0x81], &[0xa0]), "nest", &mut out);
+        push(&rep(&[0x81], &[0x9f]), "nest", &mut out); // Indefinite before NestingLimitExceeded
+        push(&rep(&[0x81], &[0x98, 0x00]), "nest", &mut out); // NonCanonicalInt before …
+        push(&rep(&[0x81], &[0xb9]), "nest", &mut out); // Incomplete before …
+        push(&rep(&[0x81], &[0x82, 0x01]), "nest", &mut out); // nesting vs Incomplete
+        push(&rep(&[0x81], &[0xf6, 0x00]), "nest", &mut out); // nesting vs Trailing
+        // key nested d deep: a1 (a1 (… 01 …) f6) f6
+        let mut b = rep(&[0xa1], &[0x01]);
+        b.extend(std::iter::repeat(0xf6).take(d));
+        push(&b, "nest", &mut out);
+        let mut b = Vec::new();
+        for i in 0..d {
+            if i % 2 == 0 { b.push(0x81) } else { b.extend_from_slice(&[0xa1, 0x61, 0x6b]) }
+        }
+        b.extend_from_slice(&[0xf9, 0x3e, 0x00]);
+        push(&b, "nest", &mut out);
+        // deep item after a shallow one, and a second map entry after a deep first value
+        let mut b = vec![0x83, 0x01];
+        b.extend(rep(&[0x81], &[0xf6]));
+        b.push(0x02);
+        push(&b, "nest", &mut out);
+        let mut b = vec![0xa2, 0x01];
+        b.extend(rep(&[0x81], &[0xf4]));
+        b.extend_from_slice(&[0x02, 0xf5]);
+        push(&b, "nest", &mut out);
     }
     // every head width x boundary argument, for every major type (minimal and non-minimal forms)
     for major in 0u8..=5 {
